@@ -85,4 +85,9 @@ theorem decode_bounded (sd : Serde) (hs : sd.Lawful) (c : Cfg) (b r : Bytes) (s 
 /-- non-vacuity: the two-level example image truncated in the middle of the second level header is rejected -/
 example : decode (Serde.fixed 8) docCfg ((encode (Serde.fixed 8) docCfg exImage).take 90) = none := by decide
 
+/-- prefix rejection at the constants of the current headers (what `./check c11_quant` compares the real readers with) -/
+theorem prefix_rejected_code (sd : Serde) (hs : sd.Lawful) (s : Image) (hw : WF sd codeCfg s = true)
+    (n : Nat) (hn : n < (encode sd codeCfg s).length) : decode sd codeCfg ((encode sd codeCfg s).take n) = none :=
+  prefix_rejected sd hs codeCfg codeCfg_ok s hw n hn
+
 end DS.Wire.Req
